@@ -1,7 +1,7 @@
 """C03 — max-iterations is a hard ceiling; iteration ids are unique and gapless."""
 from ..core import hx
 ID = "C03"
-PROPS = ["F1Verif.Props.C03", "F1Verif.Props.FactsC03"]
+PROPS = ["F1Verif.Props.C03", "F1Verif.Props.FactsC03", "F1Verif.Props.CPool"]
 RULE = ("engine A: sequential NextIteration histories for limits 0..50 and call counts around the limit (model and Spec); "
         "hook-free stress: 4-64 goroutines racing NextIteration for the last ids, hundreds of rounds with small limits; "
         "real pools: trigger pools (several ticks) and continuous (users) pools with T.Iteration recorded by the scenario, "
@@ -88,6 +88,6 @@ def distribution(recs):
 
 
 MANIFEST = {
- "text": "NextIteration is one atomic increment and a comparison on the returned value, so concurrent histories are sequences of calls; for every limit N and number of calls k the ids handed out are exactly 1..min(k,N) (1..k without limit): distinct, gapless, at most N, exactly N when requests continue (C03_ids, C03_ceiling, C03_exact_on_limit, C03_distinct), and the limit-reached flag is raised exactly by a refused call (C03_reached_iff_refused). Induction over the number of calls. Tie: sequential histories vs the model, concurrent stress on the real counter, ids observed inside real trigger and continuous pools.",
+ "text": "NextIteration is one atomic increment and a comparison on the returned value, so concurrent histories are sequences of calls; for every limit N and number of calls k the ids handed out are exactly 1..min(k,N) (1..k without limit): distinct, gapless, at most N, exactly N when requests continue (C03_ids, C03_ceiling, C03_exact_on_limit, C03_distinct), and the limit-reached flag is raised exactly by a refused call (C03_reached_iff_refused). Users mode: on the continuous-pool model (any number of workers, every schedule of takes, completions, cancellation from outside and the watcher that raises the stop flag) at most N iterations start (C03_users_ceiling) and, when every worker has returned and nothing but the limit stopped the pool, exactly N (C03_users_exact). Induction over the number of calls / the schedule. Tie: sequential histories vs the model, concurrent stress on the real counter, ids observed inside real trigger and continuous pools.",
  "note": "The atomicity of the increment is Go's (assumed) and is additionally tied by the regenerated skeleton of NextIteration; that every pool of a run shares the counter and resets the handle with the id right before the body is a statement-order fact plus the pool.ids runs.",
  "technique": "Lean 4 theorems by induction over call sequences + correspondence (sequential, concurrent stress, real pools)"}
